@@ -21,8 +21,8 @@ from .c02 import run_cli
 
 RULE = ("flag combinations sampled over -I / -O derives, -d {allow, warn, deny, invalid value}, -m {pub, private, crate, absent}, -p module, "
         "--fragments-other-variant, --external-enums (0-2 names), --selected-operation {an existing operation, absent}, -o DIR / none, "
-        "--no-formatting / rustfmt x clean (schema, document) pairs incl. multi-operation documents and query file names with several "
-        "dots. The file must be at <query file stem>.rs in DIR (or beside the query) and equal the header + library tokens for the "
+        "--no-formatting / rustfmt x clean (schema, document) pairs incl. multi-operation documents, query file names with several "
+        "dots, query paths that are symbolic links, and destinations already holding a longer stale output. The file must be at <query file stem>.rs in DIR (or beside the query) and equal the header + library tokens for the "
         "corresponding options (piped through the same rustfmt when formatting). Failure clause: invalidating edits (C06 catalogue), "
         "missing / unparsable schema and query files, with a pre-seeded sentinel and a pre-existing output file that must survive "
         "unchanged. Non-trivial = invocation with >= 3 flags or a failure case; distinct by (arguments, document)")
@@ -67,7 +67,15 @@ def main(run):
         qname = rng.choice(["query.graphql", "my_query.graphql", "q.one.graphql", "Query File.graphql", "noext", "q.gql"])
         qp = os.path.join(d, qname)
         text = render_document(doc)
-        open(qp, "w").write(text)
+        symlinked = rng.random() < 0.2
+        if symlinked:
+            # the query path given on the command line is a symbolic link to a file with another name in another directory
+            os.makedirs(os.path.join(d, "shared"))
+            real = os.path.join(d, "shared", "shared_ops.graphql")
+            open(real, "w").write(text)
+            os.symlink(real, qp)
+        else:
+            open(qp, "w").write(text)
         args, opts, flags = [], {"mode": "cli"}, []
 
         def flag(name):
@@ -130,8 +138,15 @@ def main(run):
         stem = os.path.splitext(qname)[0] if "." in qname else qname
         # `<query file stem>.rs`: Path::with_extension replaces the last extension only
         expected_path = os.path.join(outdir if outdir else d, (qname.rsplit(".", 1)[0] if "." in qname else qname) + ".rs")
+        stale = rng.random() < 0.3
+        if stale:
+            # an output of an earlier, larger generation is already there: it must be replaced, not patched
+            open(expected_path, "w").write("// stale output\n" + "pub struct Old;\n" * 4000)
+            flag("stale-output")
+        if symlinked:
+            flag("symlinked-query")
         jobs.append({"id": "j%d" % i, "kind": "success", "argv": argv, "dir": d, "schema_path": sp, "query_path": qp, "opts": opts, "nofmt": nofmt,
-                     "expected_path": expected_path, "flags": flags, "doc_text": text, "schema_text": stext, "outdir": outdir})
+                     "expected_path": expected_path, "flags": flags, "doc_text": text, "schema_text": stext, "outdir": outdir, "stale": stale})
     # failure clause
     fschema = gen_schema(rng)
     ffmt, fstext, fext = render_schema(fschema, rng, "sdl")
@@ -217,7 +232,7 @@ def main(run):
                     run.count("both-rejected")
             elif rc != 0:
                 sym = "CLI exit %s where the library succeeds: %s" % (rc, se[-200:])
-            elif new != [exp_rel] or changed or gone:
+            elif (new, changed) != (([], [exp_rel]) if job.get("stale") else ([exp_rel], [])) or gone:
                 sym = "files written %s (changed %s, removed %s), expected exactly %s" % (new, changed, gone, exp_rel)
             else:
                 got = open(job["expected_path"], encoding="utf-8").read()
